@@ -14,7 +14,8 @@ RULE = (
     "(all 2.36 M ordered pairs in thorough for db.Convert, a rotation-selected subset in quick; the object routes "
     "Scalar.GetValue/CreateCopy, Array.GetValues/CreateCopy (list, ndarray), FixedArray.IndexAsScalar/ChangingIndex, "
     "FractionScalar.GetValue, Quantity.Convert/ConvertScalarValue, db.Convert by category name and on containers on a "
-    "subset; targets also written in their legacy spellings) must raise. (c) (category, unit) pairs of different quantity types (all 501 k in thorough for "
+    "subset; targets also written in their legacy spellings; each pair is first offered to the exempt 'Unknown' quantity "
+    "type, and a pair that is valid for its own type is converted there and then offered under other quantity types) must raise. (c) (category, unit) pairs of different quantity types (all 501 k in thorough for "
     "ObtainQuantity, a subset for Scalar/Array/FixedArray/FractionScalar construction in every argument order) must "
     "raise. (d) generated sequences interleaving such rejected calls with valid operations on a pool: after every "
     "rejected call the full registry snapshot (all public getters + both conversion functions sampled), every pool "
@@ -184,8 +185,19 @@ class Sweep:
         Convert = db.Convert
         c = self.cats[qt][len(u) % len(self.cats[qt])] if qt in self.cats else None
         light = snapshot.registry_light(db)
+        others_qt = [t for t in ("length", "time", "mass", "pressure") if t != qt and t in db.quantity_types]
+        same = [i.unit for i in db.quantity_types[qt] if i.unit != u][:2]
+        for w in same:
+            # a pair that is valid for its own quantity type, converted there first, is still rejected under another type
+            Convert(qt, u, w, x)
+            for qt2 in others_qt[:2]:
+                must_raise_rec(ctx, "db.Convert(other quantity type, valid pair)", {"kind": "convert_wrong_type", "qt": qt, "qt2": qt2, "u": u, "v": w, "x": x, "c": c}, lambda: Convert(qt2, u, w, x), "Convert(%r,%r,%r,%r) after Convert(%r,...)" % (qt2, u, w, x, qt))
+                must_raise_rec(ctx, "db.Convert(other quantity type, valid pair, list)", {"kind": "convert_wrong_type", "qt": qt, "qt2": qt2, "u": u, "v": w, "x": x, "c": c}, lambda: Convert(qt2, u, w, [x, 1.0]), "Convert(%r,%r,%r,[...])" % (qt2, u, w))
         for j, v in enumerate(targets):
             case = {"kind": "convert", "qt": qt, "u": u, "v": v, "x": x, "c": c}
+            if "Unknown" in db.quantity_types:
+                # the exempt quantity type accepts the pair (and converts nothing); that must not make the pair acceptable elsewhere
+                Convert("Unknown", u, v, x)
             must_raise_rec(ctx, "db.Convert", case, lambda: Convert(qt, u, v, x), "Convert(%r,%r,%r,%r)" % (qt, u, v, x))
             if c is not None and object_every and j % object_every == 0:
                 routes = self.object_routes(qt, u, v, c, x)
@@ -603,8 +615,8 @@ def replay(case, ctx):
             pr = Pairs(ctx, db)
             return core.replay_guarded(ctx, pr.check, _fix(case))
         sw = Sweep(ctx, db)
-        if case.get("kind") == "convert":
-            sw.convert_row(case["qt"], case["u"], [case["v"]], case["x"], 1)
+        if case.get("kind") in ("convert", "convert_wrong_type"):
+            sw.convert_row(case["qt"], case["u"], [case["v"]] if case["kind"] == "convert" else [], case["x"], 1)
         elif case.get("kind") == "construct":
             sw.category_row(case["c"], [case["u"]], case["x"], 1)
         else:
